@@ -148,63 +148,226 @@ func (s *sim) check(a Action) {
 		}
 	}
 	// operator input: typed lines and inserts arrive in order, an insert as one entry
-	if s.stalled {
-		if len(s.got) > 0 && !(len(s.got) <= len(s.expectIch) && eqStr(s.got, s.expectIch[:len(s.got)])) {
-			s.violate("C02", "terminal-input-fifo", "what the operator entered is not what arrives on the input channel",
-				"entered %s; the input channel delivered %s", clipList(s.expectIch), clipList(s.got))
-		}
-	} else if len(held) == 0 && !eqStr(s.got, s.expectIch) {
-		if s.insertOvertaken() {
-			s.violate("C02", "insert-keeps-its-place", "line typed after Ctrl+I is delivered before the inserted text",
-				"entered %s; the input channel delivered %s: everything arrived once and the typed lines are in order, but inserted text arrived after lines that were typed after Ctrl+I (the insert runs in its own goroutine and is not ordered with the line reader)",
-				clipList(s.expectIch), clipList(s.got))
-			return
-		}
-		s.violate("C02", "terminal-input-fifo", "what the operator entered is not what arrives on the input channel",
-			"entered %s; the input channel delivered %s (an insert must arrive as exactly one entry)", clipList(s.expectIch), clipList(s.got))
+	s.checkInput(len(held) > 0)
+}
+
+// expEnt is one thing the operator entered: a typed line, or a Ctrl+I.
+//
+// The property fixes the order of what arrives, exactly-once and that an insert
+// arrives as one entry; it does not say at which moment between the key press
+// and the delivery the shell reads the insert's source.  So an insert is judged
+// by what the source would have given over that whole time: only the payload
+// (ok and not bad: the entry must arrive), only failure or nothing (bad and not
+// ok: no entry may arrive), or both because the source changed while the insert
+// was under way (the entry may or may not arrive; if it does, in its place).
+// The time ends (frozen) at the first quiescent point at which nothing can be
+// under way any more: input is being taken, nothing is parked, no read of the
+// source is in progress, and everything expected has arrived.
+type expEnt struct {
+	text    string
+	insert  bool
+	ok, bad bool
+	frozen  bool
+}
+
+func (e *expEnt) see(mode string) {
+	if mode == "" {
+		e.ok = true
+	} else {
+		e.bad = true
 	}
 }
 
-// insertOvertaken: got is expectIch with nothing lost or duplicated and the
-// typed lines in order; only inserted payloads sit later than they should.
-func (s *sim) insertOvertaken() bool {
-	if len(s.got) != len(s.expectIch) {
-		return false
+func (e *expEnt) absent() bool   { return e.insert && !e.ok }
+func (e *expEnt) optional() bool { return e.insert && e.ok && e.bad }
+
+// expected is what may arrive: every entry but the inserts which cannot.
+func (s *sim) expected() []expEnt {
+	var l []expEnt
+	for _, e := range s.expect {
+		if !e.absent() {
+			l = append(l, e)
+		}
 	}
+	return l
+}
+
+// maxPending: how many entries may at most be waiting to be taken.
+func (s *sim) maxPending() int {
+	n := 0
+	for i := range s.expect {
+		if !s.expect[i].absent() {
+			n++
+		}
+	}
+	return n - len(s.got)
+}
+
+// matchInput: is got the expected sequence with some of the optional entries
+// left out (prefix: the beginning of such a sequence)?
+func matchInput(exp []expEnt, got []string, prefix bool) bool {
+	n, m := len(exp), len(got)
+	// f[j]: the entries considered so far can have produced exactly got[:j]
+	f := make([]bool, m+1)
+	f[0] = true
+	if prefix && m == 0 {
+		return true
+	}
+	for i := 1; i <= n; i++ {
+		e := &exp[i-1]
+		for j := m; j >= 0; j-- {
+			v := f[j] && e.optional()
+			if j > 0 && f[j-1] && e.text == got[j-1] {
+				v = true
+			}
+			f[j] = v
+		}
+		if prefix && f[m] {
+			return true
+		}
+	}
+	return f[m]
+}
+
+func expTexts(exp []expEnt) string {
+	var p []string
+	for i, e := range exp {
+		if i >= 8 {
+			p = append(p, "...")
+			break
+		}
+		x := fmt.Sprintf("%q", clipS(e.text))
+		if e.optional() {
+			x += "(or nothing: its source changed while it was under way)"
+		}
+		p = append(p, x)
+	}
+	return "[" + strings.Join(p, " ") + "]"
+}
+
+func (s *sim) checkInput(parked bool) {
+	exp := s.expected()
+	reading := s.heldReads()
+	if reading > 0 {
+		s.obs("source reads in progress: %d", reading)
+	}
+	if s.stalled || (!parked && reading > 0) {
+		// nothing or not everything can have arrived: what has must be the beginning
+		if len(s.got) > 0 && !matchInput(exp, s.got, true) {
+			if !s.stalled && s.insertOvertaken(exp, true) {
+				s.violate("C02", "insert-keeps-its-place", "line typed after Ctrl+I is delivered before the inserted text",
+					"entered %s; the input channel delivered %s while the source of an insert entered earlier is still being read", expTexts(exp), clipList(s.got))
+				return
+			}
+			s.violate("C02", "terminal-input-fifo", "what the operator entered is not what arrives on the input channel",
+				"entered %s; the input channel delivered %s", expTexts(exp), clipList(s.got))
+		}
+		return
+	}
+	if parked {
+		return
+	}
+	if matchInput(exp, s.got, false) {
+		// nothing is under way any more: what the source does from now on is of
+		// no concern to the inserts entered so far
+		for i := range s.expect {
+			s.expect[i].frozen = true
+		}
+		return
+	}
+	if s.insertOvertaken(exp, false) {
+		s.violate("C02", "insert-keeps-its-place", "line typed after Ctrl+I is delivered before the inserted text",
+			"entered %s; the input channel delivered %s: everything arrived once and the typed lines are in order, but inserted text arrived after lines that were typed after Ctrl+I (an insert must keep its place amongst the typed lines, whatever happens to the inserts around it)",
+			expTexts(exp), clipList(s.got))
+		return
+	}
+	s.violate("C02", "terminal-input-fifo", "what the operator entered is not what arrives on the input channel",
+		"entered %s; the input channel delivered %s (an insert must arrive as exactly one entry)", expTexts(exp), clipList(s.got))
+}
+
+// insertOvertaken: got is what was expected with nothing lost or duplicated
+// and the typed lines in order; only inserted payloads sit later than they
+// should.  (prefix: got is only the beginning of what will arrive.)
+func (s *sim) insertOvertaken(exp []expEnt, prefix bool) bool {
 	pl := string(s.payload)
 	var a, b []string
-	na, nb := 0, 0
-	for _, x := range s.expectIch {
-		if x == pl {
-			na++
+	var t, u []int // typed lines before each expected insert / each delivered payload
+	var mand []bool
+	for i := range exp {
+		if exp[i].insert {
+			t = append(t, len(a))
+			mand = append(mand, !exp[i].optional())
 		} else {
-			a = append(a, x)
+			a = append(a, exp[i].text)
 		}
 	}
 	for _, x := range s.got {
 		if x == pl {
-			nb++
+			u = append(u, len(b))
 		} else {
 			b = append(b, x)
 		}
 	}
-	if na != nb || na == 0 || !eqStr(a, b) {
+	if prefix {
+		if len(b) > len(a) || !eqStr(a[:len(b)], b) {
+			return false
+		}
+		// no payload came before its place and none too many: as what arrived is
+		// not a beginning of what was entered, a line went past an insert
+		if len(u) > len(t) {
+			return false
+		}
+		for k := 0; k <= len(b); k++ {
+			early, avail := 0, 0
+			for _, x := range u {
+				if x <= k {
+					early++
+				}
+			}
+			for _, x := range t {
+				if x <= k {
+					avail++
+				}
+			}
+			if early > avail {
+				return false
+			}
+		}
+		return true
+	}
+	if len(u) == 0 || len(u) > len(t) || !eqStr(a, b) {
 		return false
 	}
-	// every payload arrives no earlier than its place
-	seenE, seenG := 0, 0
-	for i := range s.got {
-		if s.expectIch[i] == pl {
-			seenE++
+	// a payload which arrives after k typed lines can belong to any insert
+	// entered after at most k typed lines: each payload needs such an insert,
+	// each insert that must arrive needs such a payload
+	for k := 0; k <= len(a); k++ {
+		early, avail, lateMand, late := 0, 0, 0, 0
+		for _, x := range u {
+			if x <= k {
+				early++
+			} else {
+				late++
+			}
 		}
-		if s.got[i] == pl {
-			seenG++
+		for i, x := range t {
+			if x <= k {
+				avail++
+			} else if mand[i] {
+				lateMand++
+			}
 		}
-		if seenG > seenE {
+		if early > avail || lateMand > late {
 			return false
 		}
 	}
-	return true
+	nm := 0
+	for _, m := range mand {
+		if m {
+			nm++
+		}
+	}
+	return len(u) >= nm
 }
 
 func (s *sim) finalCheck() {
